@@ -43,7 +43,7 @@ class ResolveRuleReferences(Contract):
     rules are a permutation of the input, and rules unrelated by references keep their document order - for every document order"""
     id = "C09.SigmaCollection.resolve_rule_references"
     target = "sigma.collection:SigmaCollection.resolve_rule_references"
-    props = ("C09",)
+    props = ("C09", "C10")
     cases = perm_cases()
     assumed = ["SigmaCorrelationRule.resolve_rule_references (own contract) and filter application are abstract here", "reference graphs: chain of depth 3, diamond, unrelated rules; all (or every fifth) document orders - unrolled"]
 
@@ -79,24 +79,41 @@ class CorrelationResolveReferences(Contract):
     never re-enabled (so the result does not depend on the order in which several correlation rules are resolved)"""
     id = "C09.SigmaCorrelationRule.resolve_rule_references"
     target = "sigma.correlations:SigmaCorrelationRule.resolve_rule_references"
-    props = ("C09",)
-    cases = tuple((gen, pre) for gen in (True, False) for pre in (True, False))
+    props = ("C09", "C10")
+    cases = tuple((gen, pre, route) for gen in (True, False) for pre in (True, False) for route in ("rules list", "extended condition only"))
+
+    def setup(self, E):
+        E._c09_ref = {}
+        E.summaries["sigma.correlations:SigmaExtendedCorrelationCondition.get_referenced_rules"] = lambda I, so, a, k: ["named_in_condition"]
+
+        def hook(I, cinfo, args, kwargs):
+            from pyvc.interp import UNBOUND
+            if cinfo.name == "SigmaRuleReference":
+                E._c09_ref["made_for"] = list(args)
+                return E._c09_ref["ref"]
+            return UNBOUND
+        E.instantiate_hook = hook
 
     def args(self, I, case):
-        gen, pre_output = case
+        gen, pre_output, route = case
         idx = I.E.index
         target = SObj(idx.lookup("sigma.rule.rule:SigmaRule"), {"_backreferences": [], "_output": pre_output}, lazy=True)
         coll = I.fresh("collection", "opaque", "Collection")
         resolved = []
         ref = SObj("RuleReference", {"resolve": NativeFn("resolve", lambda I2, a, k: resolved.append(a[0])), "rule": target})
-        me = SObj(idx.lookup("sigma.correlations:SigmaCorrelationRule"), {"rules": [ref], "generate": gen, "condition": None}, lazy=True)
+        I.E._c09_ref.clear()
+        I.E._c09_ref["ref"] = ref
+        cond = SObj(idx.lookup("sigma.correlations:SigmaExtendedCorrelationCondition"), {}, lazy=True) if route != "rules list" else None
+        me = SObj(idx.lookup("sigma.correlations:SigmaCorrelationRule"), {"rules": [ref] if route == "rules list" else None, "generate": gen, "condition": cond}, lazy=True)
         return {"self": me, "args": [coll], "target": target, "ref": ref, "coll": coll, "resolved": resolved, "case": case}
 
     def post(self, I, inp, r):
-        gen, pre = inp["case"]
+        gen, pre, route = inp["case"]
         c, t, me = I.ctx, inp["target"], inp["self"]
         c.require(inp["resolved"] == [inp["coll"]], "every reference is resolved against the collection")
-        c.require(me.fields.get("referenced_rules") == [inp["ref"]], "referenced_rules are the explicit rule references")
+        if route != "rules list":
+            c.require(I.E._c09_ref.get("made_for") == ["named_in_condition"], "a rule without a rules list refers to the rules its extended condition names")
+        c.require(me.fields.get("referenced_rules") == [inp["ref"]], "referenced_rules are the explicit rule references (or the ones named by the extended condition)")
         c.require(t.fields["_backreferences"] == [me], "the referenced rule knows the rule that refers to it")
         c.require(t.fields["_output"] is (pre and gen), "output of the referenced rule: disabled iff this rule does not generate; never re-enabled")
 
